@@ -336,4 +336,718 @@ theorem assignArray_stored (np : NumPy) (fixed : Bool) (cap : Nat) (e : Ty) (x v
     · exact fastPath_stored np _ _ _ _ _ hnd' h
   · exact fastPath_stored np _ _ _ _ _ hnd' h
 
+theorem inDT_hasTy_int (s : Bool) (w : Nat) (c : Bool) (y : Py) (hw : pickWidth w = w)
+    (h : inDT (dtypeOf (.int s w c)) y = true) : hasTy true (.int s w c) y = true := by
+  cases s with
+  | true =>
+    rw [dtypeOf, hw] at h
+    cases y with
+    | int i =>
+      simp only [inDT, Bool.and_eq_true, decide_eq_true_eq] at h
+      simp only [hasTy, intLo, intHi, if_true, Bool.and_eq_true, decide_eq_true_eq]
+      omega
+    | _ => simp [inDT] at h
+  | false =>
+    rw [dtypeOf, hw] at h
+    cases y with
+    | int i =>
+      simp only [inDT, Bool.and_eq_true, decide_eq_true_eq] at h
+      simp only [hasTy, intLo, intHi, Bool.false_eq_true, if_false, Bool.and_eq_true, decide_eq_true_eq]
+      omega
+    | _ => simp [inDT] at h
+
+theorem setField_int_ok (np : Oracle) (s : Bool) (w : Nat) (c : Bool) (x v : Py)
+    (h : setField np (.int s w c) x = .ok v) :
+    ∃ i, pyInt x = .ok i ∧ v = .int i ∧ intLo s w ≤ i ∧ i ≤ intHi s w := by
+  simp only [setField] at h
+  cases hi : pyInt x with
+  | error _ => rw [hi] at h; simp [bind, Except.bind] at h
+  | ok i =>
+    rw [hi] at h
+    simp only [bind, Except.bind] at h
+    split at h
+    · rename_i hr; simp [pure, Except.pure] at h; exact ⟨i, rfl, h.symm, hr.1, hr.2⟩
+    · simp [throw, throwThe, MonadExceptOf.throw] at h
+
+theorem setField_float_ok (np : Oracle) (w : Nat) (c : Bool) (x v : Py)
+    (h : setField np (.float w c) x = .ok v) :
+    ∃ f, pyFloat x = .ok f ∧ v = .float f ∧ floatOK w f = true := by
+  simp only [setField] at h
+  cases hf : pyFloat x with
+  | error _ => rw [hf] at h; simp [bind, Except.bind] at h
+  | ok f =>
+    rw [hf] at h
+    simp only [bind, Except.bind] at h
+    split at h
+    · rename_i hr; simp [pure, Except.pure] at h; exact ⟨f, rfl, h.symm, hr⟩
+    · simp [throw, throwThe, MonadExceptOf.throw] at h
+
+theorem setField_bool_ok (np : Oracle) (x v : Py) (h : setField np .bool x = .ok v) : ∃ b, v = .bool b := by
+  simp only [setField] at h
+  cases hb : pyBool x with
+  | error _ => rw [hb] at h; simp [Except.map] at h
+  | ok b => rw [hb] at h; simp [Except.map] at h; exact ⟨b, h.symm⟩
+
+theorem setField_comp_ok (np : Oracle) (cls : Nat) (u : Bool) (fs : List Ty) (x v : Py)
+    (h : setField np (.comp cls u fs) x = .ok v) : ∃ slots, x = .obj cls slots ∧ v = x := by
+  simp only [setField] at h
+  split at h
+  · rename_i c slots
+    split at h
+    · rename_i hc; subst hc; simp [pure, Except.pure] at h; exact ⟨slots, rfl, h.symm⟩
+    · simp [throw, throwThe, MonadExceptOf.throw] at h
+  · simp [throw, throwThe, MonadExceptOf.throw] at h
+
+/-! ## defaults -/
+
+theorem isComp_dtype (e : Ty) (h : isComp e = true) : dtypeOf e = .obj := by
+  cases e <;> simp_all [isComp, dtypeOf]
+
+theorem inDT_zero (e : Ty) : inDT (dtypeOf e) (zeroOf (dtypeOf e)) = true := by
+  cases e with
+  | bool => rfl
+  | int s w c =>
+    cases s with
+    | true =>
+      have := two_pow_pos' (pickWidth w - 1)
+      simp [dtypeOf, zeroOf, inDT]; omega
+    | false =>
+      have := two_pow_pos' (pickWidth w)
+      simp [dtypeOf, zeroOf, inDT]; omega
+  | float w c =>
+    have : roundF (pickWidth w) (.fin false 0) = .fin false 0 := by
+      simp [roundF, roundMag, Nat.two_pow_pos]
+    simp [dtypeOf, zeroOf, inDT, this]
+  | arr _ _ _ => rfl
+  | comp _ _ _ => rfl
+
+theorem default_arr_form (fixed : Bool) (cap : Nat) (e : Ty) :
+    ∃ xs, defaultVal (.arr fixed cap e) = .nd (dtypeOf e) xs ∧ lenOK fixed cap xs.length = true ∧
+      ∀ y ∈ xs, inDT (dtypeOf e) y = true := by
+  cases fixed with
+  | false => exact ⟨[], by simp [defaultVal], by simp [lenOK], by simp⟩
+  | true =>
+    by_cases hc : isComp e = true
+    · refine ⟨List.replicate cap (defaultVal e), by simp [defaultVal, hc, isComp_dtype e hc], by simp [lenOK], ?_⟩
+      intro y _; rw [isComp_dtype e hc]; cases y <;> rfl
+    · refine ⟨List.replicate cap (zeroOf (dtypeOf e)), by simp [defaultVal, hc], by simp [lenOK], ?_⟩
+      intro y hy; rw [(List.mem_replicate.1 hy).2]; exact inDT_zero e
+
+theorem ndOK_default (t : Ty) : ndOK (defaultVal t) = true := by
+  cases t with
+  | arr fixed cap e =>
+    obtain ⟨xs, h, _, hall⟩ := default_arr_form fixed cap e
+    rw [h]; exact List.all_eq_true.2 hall
+  | bool => rfl
+  | int _ _ _ => rfl
+  | float _ _ => rfl
+  | comp _ _ _ => simp [defaultVal, ndOK]
+
+/-- `self.f = <default>` in the constructors stores exactly the default (for every oracle). -/
+theorem setField_default (np : Oracle) (t : Ty) : setField np t (defaultVal t) = .ok (defaultVal t) := by
+  cases t with
+  | bool => rfl
+  | int s w c =>
+    have h1 : intLo s w ≤ 0 := by
+      cases s <;> simp [intLo]; exact Int.le_of_lt (two_pow_pos' _)
+    have h2 : (0 : Int) ≤ intHi s w := by
+      cases s <;> simp [intHi]
+      · have := two_pow_pos' w; omega
+      · have := two_pow_pos' (w - 1); omega
+    simp [setField, defaultVal, pyInt, bind, Except.bind, h1, h2, pure, Except.pure]
+  | float w c => simp [setField, defaultVal, pyFloat, bind, Except.bind, floatOK, pure, Except.pure]
+  | comp cls u fs => simp [setField, defaultVal, pure, Except.pure]
+  | arr fixed cap e =>
+    obtain ⟨xs, h, hl, _⟩ := default_arr_form fixed cap e
+    rw [h]
+    have henc : encodeStr fixed e (.nd (dtypeOf e) xs) = .nd (dtypeOf e) xs := by
+      unfold encodeStr; split <;> rfl
+    have hfast : fastPath np fixed cap (dtypeOf e) (.nd (dtypeOf e) xs) = .ok (.nd (dtypeOf e) xs) := by
+      simp [fastPath, hl, pure, Except.pure]
+    simp only [setField, assignArray, assignCore, henc]
+    split <;> exact hfast
+
+/-! ## union bookkeeping -/
+
+theorem length_oneHot : ∀ (slots : List Py) (i : Nat) (v : Py), (oneHot slots i v).length = slots.length := by
+  intro slots
+  induction slots with
+  | nil => intro i v; rfl
+  | cons s ss ih =>
+    intro i v
+    cases i with
+    | zero => simp [oneHot]
+    | succ k => simp [oneHot, ih]
+
+theorem countSome_nones (ss : List Py) : countSome (ss.map (fun _ => Py.none)) = 0 := by
+  induction ss with
+  | nil => rfl
+  | cons s ss ih => simpa [countSome, isNone] using ih
+
+theorem countSome_oneHot : ∀ (slots : List Py) (i : Nat) (v : Py), i < slots.length → isNone v = false →
+    countSome (oneHot slots i v) = 1 := by
+  intro slots
+  induction slots with
+  | nil => intro i v h; simp at h
+  | cons s ss ih =>
+    intro i v hi hv
+    cases i with
+    | zero =>
+      have := countSome_nones ss
+      simp [oneHot, countSome, hv] at this ⊢
+      exact this
+    | succ k =>
+      have := ih k v (by simpa using hi) hv
+      simpa [oneHot, countSome, isNone] using this
+
+theorem setField_not_none (np : Oracle) (t : Ty) (x v : Py) (h : setField np t x = .ok v) : isNone v = false := by
+  cases t with
+  | bool => obtain ⟨b, rfl⟩ := setField_bool_ok _ _ _ h; rfl
+  | int s w c => obtain ⟨i, _, rfl, _⟩ := setField_int_ok _ _ _ _ _ _ h; rfl
+  | float w c => obtain ⟨f, _, rfl, _⟩ := setField_float_ok _ _ _ _ _ h; rfl
+  | comp cls u fs => obtain ⟨slots, rfl, rfl⟩ := setField_comp_ok _ _ _ _ _ _ h; rfl
+  | arr fixed cap e =>
+    -- every returning branch of assign_array builds an ndarray
+    simp only [setField, assignArray, assignCore] at h
+    have hslow : ∀ y, slowPath np fixed cap (dtypeOf e) y = .ok v → isNone v = false := by
+      intro y hy; obtain ⟨xs, _, rfl, _⟩ := slowPath_ok _ _ _ _ _ _ hy; rfl
+    have hfast : ∀ y, fastPath np fixed cap (dtypeOf e) y = .ok v → isNone v = false := by
+      intro y hy
+      unfold fastPath at hy
+      split at hy
+      · split at hy
+        · simp [pure, Except.pure] at hy; subst hy; rfl
+        · exact hslow _ hy
+      · exact hslow _ hy
+    split at h
+    · split at h
+      · split at h
+        · simp [pure, Except.pure, fromBuffer] at h; subst h; rfl
+        · simp [throw, throwThe, MonadExceptOf.throw] at h
+      · exact hfast _ h
+    · exact hfast _ h
+
+theorem ctorUnionLoop_inv (np : Oracle) : ∀ (fs : List Ty) (args : List Py) (i : Nat) (slots : List Py) (cnt : Nat)
+    (slots' : List Py) (cnt' : Nat), i + fs.length ≤ slots.length →
+    ctorUnionLoop np fs args i (slots, cnt) = .ok (slots', cnt') →
+    slots'.length = slots.length ∧ cnt' = cnt + givenArgs fs.length args ∧
+      (cnt' = cnt → slots' = slots) ∧ (cnt < cnt' → countSome slots' = 1) := by
+  intro fs
+  induction fs with
+  | nil =>
+    intro args i slots cnt slots' cnt' _ h
+    simp [ctorUnionLoop, pure, Except.pure] at h
+    obtain ⟨rfl, rfl⟩ := h
+    simp [givenArgs]
+  | cons f fs ih =>
+    intro args i slots cnt slots' cnt' hi h
+    simp only [ctorUnionLoop] at h
+    split at h
+    · rename_i hn
+      have := ih args.tail (i + 1) slots cnt slots' cnt' (by simp at hi; omega) h
+      simp only [List.length_cons, givenArgs, hn, if_true]
+      simpa using this
+    · rename_i hn
+      cases hv : setField np f (args.headD Py.none) with
+      | error _ => rw [hv] at h; simp [bind, Except.bind] at h
+      | ok v =>
+        rw [hv] at h
+        simp only [bind, Except.bind] at h
+        have hlen := length_oneHot slots i v
+        obtain ⟨h1, h2, h3, h4⟩ := ih args.tail (i + 1) (oneHot slots i v) (cnt + 1) slots' cnt'
+          (by rw [hlen]; simp at hi; omega) h
+        have hone : countSome (oneHot slots i v) = 1 :=
+          countSome_oneHot slots i v (by simp at hi; omega) (setField_not_none np f _ v hv)
+        refine ⟨by rw [h1, hlen], ?_, ?_, ?_⟩
+        · simp only [List.length_cons, givenArgs, hn]; simp; omega
+        · intro he; omega
+        · intro _
+          by_cases hc : cnt' = cnt + 1
+          · rw [h3 hc]; exact hone
+          · exact h4 (by omega)
+
+/-! ## round trip helpers -/
+
+theorem bytesOf_spec : ∀ (xs : List Py) (bs : List Nat), bytesOf xs = some bs →
+    xs = bs.map (fun b => Py.int ((b % 256 : Nat) : Int)) ∧ bs.length = xs.length := by
+  intro xs
+  induction xs with
+  | nil => intro bs h; simp [bytesOf] at h; subst h; simp
+  | cons x xs ih =>
+    intro bs h
+    cases x with
+    | int i =>
+      simp only [bytesOf] at h
+      split at h
+      · rename_i hr
+        cases hb : bytesOf xs with
+        | none => rw [hb] at h; simp at h
+        | some bs' =>
+          rw [hb] at h; simp at h; subst h
+          obtain ⟨h1, h2⟩ := ih bs' hb
+          have : ((i.toNat % 256 : Nat) : Int) = i := by omega
+          refine ⟨?_, by simp [h2]⟩
+          rw [List.map_cons, this, ← h1]
+      · simp at h
+    | _ => simp [bytesOf] at h
+
+theorem bytesOf_some : ∀ (xs : List Py), (∀ y ∈ xs, inDT (.u 8) y = true) → ∃ bs, bytesOf xs = some bs := by
+  intro xs
+  induction xs with
+  | nil => intro _; exact ⟨[], rfl⟩
+  | cons x xs ih =>
+    intro h
+    obtain ⟨bs, hbs⟩ := ih (fun y hy => h y (List.mem_cons_of_mem _ hy))
+    have hx := h x List.mem_cons_self
+    cases x with
+    | int i =>
+      simp only [inDT, Bool.and_eq_true, decide_eq_true_eq] at hx
+      have h256 : (2 : Int) ^ 8 = 256 := by decide
+      rw [h256] at hx
+      exact ⟨i.toNat :: bs, by simp [bytesOf, hx.1, hx.2, hbs]⟩
+    | _ => simp [inDT] at hx
+
+theorem dtype_prim_ne_obj (e : Ty) (hp : isComp e = false) (ha : isArr e = false) : dtypeOf e ≠ .obj := by
+  cases e with
+  | int s w c => cases s <;> simp [dtypeOf]
+  | bool => simp [dtypeOf]
+  | float w c => simp [dtypeOf]
+  | arr _ _ _ => simp [isArr] at ha
+  | comp _ _ _ => simp [isComp] at hp
+
+theorem toBuiltin_elem (e : Ty) (x : Py) (hp : isComp e = false) (ha : isArr e = false)
+    (h : inDT (dtypeOf e) x = true) : toBuiltin e x = .ok x := by
+  cases e with
+  | bool => cases x <;> simp_all [dtypeOf, inDT, toBuiltin, pyBool, Except.map]
+  | int s w c => cases s <;> cases x <;> simp_all [dtypeOf, inDT, toBuiltin, pyInt, Except.map]
+  | float w c => cases x <;> simp_all [dtypeOf, inDT, toBuiltin, pyFloat, Except.map]
+  | arr _ _ _ => simp [isArr] at ha
+  | comp _ _ _ => simp [isComp] at hp
+
+theorem strLike_byteLike (fixed : Bool) (e : Ty) (h : strLike fixed e = true) :
+    byteLike e = true ∧ dtypeOf e = .u 8 ∧ isComp e = false := by
+  unfold strLike at h
+  split at h
+  · simp [byteLike, dtypeOf, pickWidth, isComp]
+  · simp at h
+
+theorem assignArray_list (np : NumPy) (fixed : Bool) (cap : Nat) (e : Ty) (xs : List Py)
+    (hall : ∀ y ∈ xs, inDT (dtypeOf e) y = true ∧ (dtypeOf e = .obj → isObj y = true))
+    (hl : lenOK fixed cap xs.length = true) :
+    assignArray np.array fixed cap e (.list xs) = .ok (.nd (dtypeOf e) xs) := by
+  have hslow : slowPath np.array fixed cap (dtypeOf e) (.list xs) = .ok (.nd (dtypeOf e) xs) := by
+    simp [slowPath, np.builtin _ xs hall, bind, Except.bind, hl, pure, Except.pure]
+  have henc : encodeStr fixed e (.list xs) = .list xs := by unfold encodeStr; split <;> rfl
+  simp only [assignArray, assignCore, henc]
+  split <;> simpa [fastPath] using hslow
+
+theorem assignArray_str (np : Oracle) (fixed : Bool) (cap : Nat) (e : Ty) (bs : List Nat)
+    (hs : strLike fixed e = true) (hl : lenOK fixed cap bs.length = true) :
+    assignArray np fixed cap e (.str bs) = .ok (fromBuffer (.u 8) bs) := by
+  obtain ⟨hb, hd, _⟩ := strLike_byteLike fixed e hs
+  have henc : encodeStr fixed e (.str bs) = .bytes false bs := by simp [encodeStr, hs]
+  simp [assignArray, assignCore, henc, hb, hl, hd, pure, Except.pure]
+
+theorem updU_all_missing (np : Oracle) : ∀ (fs : List Ty) (vs before after : List Py),
+    (∀ v ∈ vs, isMissing v = true) → updU np fs vs before after = .ok (before ++ after) := by
+  intro fs
+  induction fs with
+  | nil => intro vs before after _; simp [updU, pure, Except.pure]
+  | cons f fs ih =>
+    intro vs before after h
+    cases vs with
+    | nil => simp [updU, pure, Except.pure]
+    | cons v vs =>
+      cases after with
+      | nil => simp [updU, pure, Except.pure]
+      | cons s after =>
+        have hv := h v List.mem_cons_self
+        simp only [updU, hv, if_true]
+        rw [ih vs (before ++ [s]) after (fun v' hv' => h v' (List.mem_cons_of_mem _ hv'))]
+        simp
+
+theorem tbFields_all_none : ∀ (fs : List Ty) (ss : List Py), ss.all isNone = true → ss.length = fs.length →
+    tbFields fs ss = .ok (ss.map (fun _ => Py.missing)) := by
+  intro fs
+  induction fs with
+  | nil => intro ss _ hl; cases ss with
+    | nil => rfl
+    | cons _ _ => simp at hl
+  | cons f fs ih =>
+    intro ss ha hl
+    cases ss with
+    | nil => simp at hl
+    | cons s ss =>
+      simp only [List.all_cons, Bool.and_eq_true] at ha
+      simp only [tbFields, ha.1, if_true]
+      rw [ih ss ha.2 (by simpa using hl)]
+      rfl
+
+theorem nones_eq (ss after : List Py) (ha : ss.all isNone = true) (hl : ss.length = after.length) :
+    after.map (fun _ => Py.none) = ss := by
+  induction ss generalizing after with
+  | nil => cases after with
+    | nil => rfl
+    | cons _ _ => simp at hl
+  | cons s ss ih =>
+    cases after with
+    | nil => simp at hl
+    | cons a after =>
+      simp only [List.all_cons, Bool.and_eq_true] at ha
+      have hs : s = Py.none := by cases s <;> simp_all [isNone]
+      simp [hs, ih after ha.2 (by simpa using hl)]
+
+theorem mapM_roundtrip {α β ε : Type} (f : α → Except ε β) (g : β → Except ε α) :
+    ∀ (xs : List α), (∀ x ∈ xs, ∃ b, f x = .ok b ∧ g b = .ok x) →
+      ∃ bs, xs.mapM f = .ok bs ∧ bs.mapM g = .ok xs := by
+  intro xs
+  induction xs with
+  | nil => intro _; exact ⟨[], rfl, rfl⟩
+  | cons x xs ih =>
+    intro h
+    obtain ⟨b, hf, hg⟩ := h x List.mem_cons_self
+    obtain ⟨bs, hfs, hgs⟩ := ih (fun x' hx' => h x' (List.mem_cons_of_mem _ hx'))
+    refine ⟨b :: bs, ?_, ?_⟩
+    · rw [List.mapM_cons, hf, hfs]; rfl
+    · rw [List.mapM_cons, hg, hgs]; rfl
+
+theorem all_isNone_nones {α : Type} (fs : List α) : (fs.map (fun _ => Py.none)).all isNone = true := by
+  induction fs with
+  | nil => rfl
+  | cons _ _ ih => simpa [isNone] using ih
+
+theorem hasTy_none (strict : Bool) (t : Ty) : hasTy strict t Py.none = false := by
+  cases t <;> simp [hasTy]
+
+theorem default_not_none (t : Ty) : isNone (defaultVal t) = false := by
+  cases t with
+  | arr fixed cap e => simp only [defaultVal]; split <;> (try split) <;> rfl
+  | bool => rfl
+  | int _ _ _ => rfl
+  | float _ _ => rfl
+  | comp _ _ _ => rfl
+
+/-- Defaults are well-typed (for the type shapes DSDL admits). -/
+theorem hasTy_default (t : Ty) : wf t = true → hasTy false t (defaultVal t) = true := by
+  refine Ty.rec
+    (motive_1 := fun t => wf t = true → hasTy false t (defaultVal t) = true)
+    (motive_2 := fun fs => wfs fs = true →
+      hasTyS false fs (defaultS fs) = true ∧ (fs ≠ [] → hasTyU false fs (defaultU fs) = true))
+    ?_ ?_ ?_ ?_ ?_ ?_ ?_ t
+  · intro _; rfl
+  · intro s w c _
+    have h := setField_int_ok (fun _ _ => .error .other) s w c _ _ (setField_default _ (.int s w c))
+    obtain ⟨i, _, hv, h1, h2⟩ := h
+    simp only [defaultVal] at hv
+    cases hv
+    simp [defaultVal, hasTy, h1, h2]
+  · intro w c _; simp [defaultVal, hasTy, floatOK]
+  · intro fixed cap e ih hw
+    simp only [wf, Bool.and_eq_true, Bool.not_eq_true'] at hw
+    obtain ⟨xs, hd, hl, hall⟩ := default_arr_form fixed cap e
+    have hall' : xs.all (inDT (dtypeOf e)) = true := List.all_eq_true.2 hall
+    by_cases hc : isComp e = true
+    · have hx : xs.all (hasTy false e) = true := by
+        cases fixed with
+        | false => simp [defaultVal] at hd; subst hd; rfl
+        | true =>
+          simp [defaultVal, hc] at hd
+          rw [← hd.2]
+          exact List.all_eq_true.2 (fun y hy => by rw [(List.mem_replicate.1 hy).2]; exact ih hw.2)
+      rw [hd]; simp [hasTy, hl, hall', hx]
+    · rw [hd]
+      cases e with
+      | bool => simp [hasTy, hl, hall', primNonInt]
+      | float _ _ => simp [hasTy, hl, hall', primNonInt]
+      | int _ _ _ => simp [hasTy, hl, hall', isInt]
+      | arr _ _ _ => simp [isArr] at hw
+      | comp _ _ _ => simp [isComp] at hc
+  · intro cls union fs ih hw
+    simp only [wf, Bool.and_eq_true] at hw
+    obtain ⟨hS, hU⟩ := ih hw.2
+    cases union with
+    | false => simp [defaultVal, hasTy, hS]
+    | true =>
+      have hne : fs ≠ [] := by
+        intro h; subst h; simp at hw
+      simp [defaultVal, hasTy, hU hne]
+  · intro _; exact ⟨rfl, fun h => absurd rfl h⟩
+  · intro f fs ihf ihfs hw
+    simp only [wfs, Bool.and_eq_true] at hw
+    refine ⟨by simp [defaultS, hasTyS, ihf hw.1, (ihfs hw.2).1], fun _ => ?_⟩
+    simp [defaultU, hasTyU, default_not_none, ihf hw.1]
+    intro _ _; rfl
+
+/-! ## the round trip, by induction over the type -/
+
+/-- Destination slots of a union: each is `None` or a well-typed value of its option. -/
+def slotsOK : List Ty → List Py → Bool
+  | [], [] => true
+  | f :: fs, d :: ds => (isNone d || hasTy false f d) && slotsOK fs ds
+  | _, _ => false
+
+theorem slotsOK_length : ∀ (fs : List Ty) (ds : List Py), slotsOK fs ds = true → ds.length = fs.length := by
+  intro fs
+  induction fs with
+  | nil => intro ds h; cases ds <;> simp_all [slotsOK]
+  | cons f fs ih =>
+    intro ds h
+    cases ds with
+    | nil => simp [slotsOK] at h
+    | cons d ds => simp only [slotsOK, Bool.and_eq_true] at h; simp [ih ds h.2]
+
+theorem slotsOK_all_none : ∀ (fs : List Ty) (ds : List Py), ds.all isNone = true → ds.length = fs.length →
+    slotsOK fs ds = true := by
+  intro fs
+  induction fs with
+  | nil => intro ds _ hl; cases ds <;> simp_all [slotsOK]
+  | cons f fs ih =>
+    intro ds ha hl
+    cases ds with
+    | nil => simp at hl
+    | cons d ds =>
+      simp only [List.all_cons, Bool.and_eq_true] at ha
+      simp [slotsOK, ha.1, ih ds ha.2 (by simpa using hl)]
+
+theorem slotsOK_of_hasTyU : ∀ (fs : List Ty) (ds : List Py), hasTyU false fs ds = true → slotsOK fs ds = true := by
+  intro fs
+  induction fs with
+  | nil => intro ds h; simp [hasTyU] at h
+  | cons f fs ih =>
+    intro ds h
+    cases ds with
+    | nil => simp [hasTyU] at h
+    | cons d ds =>
+      simp only [hasTyU] at h
+      split at h
+      · rename_i hn; simp [slotsOK, hn, ih ds h]
+      · simp only [Bool.and_eq_true, decide_eq_true_eq] at h
+        simp [slotsOK, h.1.1, slotsOK_all_none fs ds h.1.2 h.2]
+
+theorem hasTy_comp_isObj (e : Ty) (x : Py) (hc : isComp e = true) (h : hasTy false e x = true) : isObj x = true := by
+  cases e with
+  | comp cls u fs => cases x <;> simp_all [hasTy, isObj]
+  | _ => simp [isComp] at hc
+
+theorem isNone_of_hasTy (t : Ty) (s : Py) (h : hasTy false t s = true) : isNone s = false := by
+  cases hs : isNone s with
+  | false => rfl
+  | true =>
+    have : s = Py.none := by cases s <;> simp_all [isNone]
+    subst this; rw [hasTy_none] at h; simp at h
+
+/-- Motive of the induction for one field type. -/
+def RT1 (np : NumPy) (t : Ty) : Prop :=
+  wf t = true → ∀ s, hasTy false t s = true →
+    ∃ b, toBuiltin t s = .ok b ∧ isMissing b = false ∧
+      ∀ cur, (isNone cur = true ∨ hasTy false t cur = true) → updSlot np.array t cur b = .ok s
+
+/-- Motive of the induction for a field list (structure part and union part). -/
+def RT2 (np : NumPy) (fs : List Ty) : Prop :=
+  wfs fs = true →
+    (∀ ss, hasTyS false fs ss = true →
+      ∃ bs, tbFields fs ss = .ok bs ∧ ∀ ds, hasTyS false fs ds = true → updS np.array fs ds bs = .ok ss) ∧
+    (∀ ss, hasTyU false fs ss = true →
+      ∃ bs, tbFields fs ss = .ok bs ∧ ∀ before ds, slotsOK fs ds = true →
+        updU np.array fs bs before ds = .ok (before.map (fun _ => Py.none) ++ ss))
+
+theorem rt_bool (np : NumPy) : RT1 np .bool := by
+  intro _ s hs
+  cases s with
+  | bool b => exact ⟨.bool b, rfl, rfl, fun _ _ => rfl⟩
+  | _ => simp [hasTy] at hs
+
+theorem rt_int (np : NumPy) (sg : Bool) (w : Nat) (c : Bool) : RT1 np (.int sg w c) := by
+  intro _ s hs
+  cases s with
+  | int i =>
+    simp only [hasTy, Bool.and_eq_true, decide_eq_true_eq] at hs
+    refine ⟨.int i, rfl, rfl, fun _ _ => ?_⟩
+    simp [updSlot, setField, pyInt, bind, Except.bind, hs.1, hs.2, pure, Except.pure]
+  | _ => simp [hasTy] at hs
+
+theorem rt_float (np : NumPy) (w : Nat) (c : Bool) : RT1 np (.float w c) := by
+  intro _ s hs
+  cases s with
+  | float f =>
+    simp only [hasTy] at hs
+    refine ⟨.float f, rfl, rfl, fun _ _ => ?_⟩
+    simp [updSlot, setField, pyFloat, bind, Except.bind, hs, pure, Except.pure]
+  | _ => simp [hasTy] at hs
+
+theorem rt_arr (np : NumPy) (fixed : Bool) (cap : Nat) (e : Ty) (ih : RT1 np e) : RT1 np (.arr fixed cap e) := by
+  intro hw s hs
+  simp only [wf, Bool.and_eq_true, Bool.not_eq_true'] at hw
+  cases s with
+  | nd dt xs =>
+    simp only [hasTy, Bool.and_eq_true, decide_eq_true_eq, Bool.or_eq_true] at hs
+    obtain ⟨⟨⟨hdt, hl⟩, hall⟩, hel⟩ := hs
+    subst hdt
+    have hall' := List.all_eq_true.1 hall
+    by_cases hc : isComp e = true
+    · -- array of composites: element-wise by the induction hypothesis
+      have hnp : primNonInt e = false := by cases e <;> simp_all [isComp, primNonInt]
+      have hni : isInt e = false := by cases e <;> simp_all [isComp, isInt]
+      have hty : ∀ x ∈ xs, hasTy false e x = true := by
+        rcases hel with (h | h) | h
+        · rw [hnp] at h; simp at h
+        · rw [hni] at h; simp at h
+        · exact List.all_eq_true.1 h
+      have hns : strLike fixed e = false := by cases e <;> simp_all [isComp, strLike]
+      obtain ⟨bs, hf, hg⟩ := mapM_roundtrip (toBuiltin e) (updSlot np.array e Py.none) xs (fun x hx => by
+        obtain ⟨b, h1, _, h3⟩ := ih hw.2 x (hty x hx)
+        exact ⟨b, h1, h3 Py.none (Or.inl rfl)⟩)
+      refine ⟨.list bs, by simp [toBuiltin, hns, hf, Except.map], rfl, fun cur _ => ?_⟩
+      simp only [updSlot, hc, if_true, hg, bind, Except.bind]
+      exact assignArray_list np fixed cap e xs
+        (fun y hy => ⟨hall' y hy, fun _ => hasTy_comp_isObj e y hc (hty y hy)⟩) hl
+    · -- array of primitives
+      have hc' : isComp e = false := by simpa using hc
+      have hlist : xs.mapM (toBuiltin e) = .ok xs :=
+        mapM_id_of_forall (toBuiltin e) xs (fun x hx => toBuiltin_elem e x hc' hw.1 (hall' x hx))
+      have hupd : ∀ cur, updSlot np.array (.arr fixed cap e) cur (.list xs) = .ok (.nd (dtypeOf e) xs) := by
+        intro cur
+        simp only [updSlot, hc', Bool.false_eq_true, if_false]
+        exact assignArray_list np fixed cap e xs
+          (fun y hy => ⟨hall' y hy, fun h => absurd h (dtype_prim_ne_obj e hc' hw.1)⟩) hl
+      by_cases hs : strLike fixed e = true
+      · obtain ⟨_, hd8, _⟩ := strLike_byteLike fixed e hs
+        obtain ⟨bs, hbs⟩ := bytesOf_some xs (fun y hy => by rw [← hd8]; exact hall' y hy)
+        obtain ⟨hxs, hlen⟩ := bytesOf_spec xs bs hbs
+        by_cases hp : bs.all printable = true
+        · refine ⟨.str bs, by simp [toBuiltin, hs, hbs, hp, pure, Except.pure], rfl, fun cur _ => ?_⟩
+          simp only [updSlot, hc', Bool.false_eq_true, if_false]
+          rw [assignArray_str np.array fixed cap e bs hs (by rw [hlen]; exact hl), hd8, fromBuffer, ← hxs]
+        · exact ⟨.list xs, by simp [toBuiltin, hs, hbs, hp, hlist, Except.map], rfl, fun cur _ => hupd cur⟩
+      · exact ⟨.list xs, by simp [toBuiltin, hs, hlist, Except.map], rfl, fun cur _ => hupd cur⟩
+  | _ => simp [hasTy] at hs
+
+theorem rt_comp (np : NumPy) (cls : Nat) (union : Bool) (fs : List Ty) (ih : RT2 np fs) :
+    RT1 np (.comp cls union fs) := by
+  intro hw s hs
+  have hwf : wfs fs = true := by simp only [wf, Bool.and_eq_true] at hw; exact hw.2
+  obtain ⟨ihS, ihU⟩ := ih hwf
+  have hdef := hasTy_default (.comp cls union fs) hw
+  cases s with
+  | obj c slots =>
+    simp only [hasTy, Bool.and_eq_true, decide_eq_true_eq] at hs
+    obtain ⟨hc, hslots⟩ := hs
+    subst hc
+    -- the destination is `cur` or a fresh default, in both cases a well-typed instance
+    have hdest : ∀ cur, (isNone cur = true ∨ hasTy false (.comp c union fs) cur = true) →
+        ∃ dslots, (if isNone cur = true then Py.obj c (if union = true then defaultU fs else defaultS fs) else cur)
+            = .obj c dslots ∧ (if union = true then hasTyU false fs dslots else hasTyS false fs dslots) = true := by
+      intro cur hcur
+      by_cases hn : isNone cur = true
+      · refine ⟨if union = true then defaultU fs else defaultS fs, by simp [hn], ?_⟩
+        simp only [defaultVal, hasTy, decide_true, Bool.true_and] at hdef
+        exact hdef
+      · have hty : hasTy false (.comp c union fs) cur = true := by
+          rcases hcur with h | h
+          · exact absurd h hn
+          · exact h
+        cases cur with
+        | obj c' dslots =>
+          simp only [hasTy, Bool.and_eq_true, decide_eq_true_eq] at hty
+          obtain ⟨hc', hd⟩ := hty
+          subst hc'
+          exact ⟨dslots, by simp [isNone], hd⟩
+        | _ => simp [hasTy] at hty
+    cases union with
+    | false =>
+      simp only [Bool.false_eq_true, if_false] at hslots hdest
+      obtain ⟨bs, htb, hupd⟩ := ihS slots hslots
+      refine ⟨.dict bs false, by simp [toBuiltin, htb, Except.map], rfl, fun cur hcur => ?_⟩
+      obtain ⟨dslots, hd, hdt⟩ := hdest cur hcur
+      simp only [updSlot, Bool.false_eq_true, if_false]
+      rw [hd]
+      simp [hupd dslots hdt, bind, Except.bind, pure, Except.pure]
+    | true =>
+      simp only [if_true] at hslots hdest
+      obtain ⟨bs, htb, hupd⟩ := ihU slots hslots
+      refine ⟨.dict bs false, by simp [toBuiltin, htb, Except.map], rfl, fun cur hcur => ?_⟩
+      obtain ⟨dslots, hd, hdt⟩ := hdest cur hcur
+      simp only [updSlot, if_true]
+      rw [hd]
+      have := hupd [] dslots (slotsOK_of_hasTyU fs dslots hdt)
+      simp [this, bind, Except.bind, pure, Except.pure]
+  | _ => simp [hasTy] at hs
+
+theorem rt_nil (np : NumPy) : RT2 np [] := by
+  intro _
+  constructor
+  · intro ss hs
+    cases ss with
+    | nil =>
+      refine ⟨[], rfl, fun ds hd => ?_⟩
+      cases ds with
+      | nil => rfl
+      | cons _ _ => simp [hasTyS] at hd
+    | cons _ _ => simp [hasTyS] at hs
+  · intro ss hs; simp [hasTyU] at hs
+
+theorem rt_cons (np : NumPy) (f : Ty) (fs : List Ty) (ihf : RT1 np f) (ihfs : RT2 np fs) : RT2 np (f :: fs) := by
+  intro hw
+  simp only [wfs, Bool.and_eq_true] at hw
+  obtain ⟨ihS, ihU⟩ := ihfs hw.2
+  constructor
+  · intro ss hs
+    cases ss with
+    | nil => simp [hasTyS] at hs
+    | cons s ss =>
+      simp only [hasTyS, Bool.and_eq_true] at hs
+      obtain ⟨b, hb, hbm, hupd⟩ := ihf hw.1 s hs.1
+      obtain ⟨bs, hbs, hupds⟩ := ihS ss hs.2
+      have hn := isNone_of_hasTy f s hs.1
+      refine ⟨b :: bs, by simp [tbFields, hn, hb, hbs, bind, Except.bind, pure, Except.pure], fun ds hd => ?_⟩
+      cases ds with
+      | nil => simp [hasTyS] at hd
+      | cons d ds =>
+        simp only [hasTyS, Bool.and_eq_true] at hd
+        simp [updS, hbm, hupd d (Or.inr hd.1), hupds ds hd.2, bind, Except.bind, pure, Except.pure]
+  · intro ss hs
+    cases ss with
+    | nil => simp [hasTyU] at hs
+    | cons s ss =>
+      simp only [hasTyU] at hs
+      split at hs
+      · -- this option is not the selected one
+        rename_i hn
+        have hs0 : s = Py.none := by cases s <;> simp_all [isNone]
+        subst hs0
+        obtain ⟨bs, hbs, hupds⟩ := ihU ss hs
+        refine ⟨Py.missing :: bs, by simp [tbFields, isNone, hbs, bind, Except.bind, pure, Except.pure], ?_⟩
+        intro before ds hd
+        cases ds with
+        | nil => simp [slotsOK] at hd
+        | cons d ds =>
+          simp only [slotsOK, Bool.and_eq_true] at hd
+          simp only [updU, isMissing, if_true]
+          rw [hupds (before ++ [d]) ds hd.2]
+          simp
+      · -- this is the selected option; everything to the right is None
+        rename_i hn
+        simp only [Bool.and_eq_true, decide_eq_true_eq] at hs
+        obtain ⟨⟨hty, hnones⟩, hlen⟩ := hs
+        obtain ⟨b, hb, hbm, hupd⟩ := ihf hw.1 s hty
+        have hn' : isNone s = false := by simpa using hn
+        refine ⟨b :: ss.map (fun _ => Py.missing),
+          by simp [tbFields, hn', hb, tbFields_all_none fs ss hnones hlen, bind, Except.bind, pure, Except.pure], ?_⟩
+        intro before ds hd
+        cases ds with
+        | nil => simp [slotsOK] at hd
+        | cons d ds =>
+          simp only [slotsOK, Bool.and_eq_true, Bool.or_eq_true] at hd
+          have hdl := slotsOK_length fs ds hd.2
+          simp only [updU, hbm, Bool.false_eq_true, if_false, hupd d hd.1, bind, Except.bind]
+          rw [updU_all_missing np.array fs _ _ _ (fun v hv => by
+            obtain ⟨_, _, rfl⟩ := List.mem_map.1 hv; rfl)]
+          rw [nones_eq ss ds hnones (by rw [hlen, hdl])]
+          simp
+
+/-- The round trip for every type, by structural induction over the (nested) type. -/
+theorem rt_all (np : NumPy) (t : Ty) : RT1 np t :=
+  Ty.rec (motive_1 := RT1 np) (motive_2 := RT2 np)
+    (rt_bool np) (rt_int np) (rt_float np) (rt_arr np) (rt_comp np) (rt_nil np) (rt_cons np) t
+
 end NunavutVerif.PyObj
